@@ -120,3 +120,13 @@ Definition api_cv_substring (v : val) : val :=
          existsb (fun st => existsb (fun secs => cv_infix p (fst (translate_from hs st secs))) (may_secs x h))
                  (may_starts x h hs))
        (haplotypes false (in_vars x))).
+
+(* [x; peptides] -> realizable when look-behind-dependent and exception-suppressed sites are optional (D14b) *)
+Definition api_cv_realizable_relaxed2 (v : val) : val :=
+  let x := cv_input (argn 0 v) in
+  let m := flat_map (may_products_relaxed2 x) (haplotypes false (in_vars x)) in
+  VL (map (fun p => ofB (mem_seq (getS p) m)) (getL (argn 1 v))).
+
+(* [x; aas] -> firm sites of a translation (D14b signature) *)
+Definition api_cv_firm_sites (v : val) : val :=
+  VL (map (fun n => VZ (Z.of_nat n)) (firm_sites (cv_input (argn 0 v)) (getS (argn 1 v)))).
